@@ -776,6 +776,31 @@ fn correspondence(st: &mut Stats, cw: &mut CaseWriter, rng: &mut Rng, thorough: 
             }
         }
     }
+    // the `…_trap_refuted` / `…_ok` witnesses of coq/C20/Examples.v, replayed on the real code
+    let (mx, mn) = (i32::MAX as i64, i32::MIN as i64);
+    for (op, a) in [
+        (2i64, vec![mx]), (2, vec![2147483616]), (2, vec![2147483615]), (3, vec![2147483585]), (4, vec![2147483632, 32]),
+        (8, vec![mn, 64, 1]), (8, vec![1, 64, mn]), (8, vec![-33554432, 64, 1]), (8, vec![-6127, 15026, 2276]),
+        (11, vec![0, 0, 0, 64, mx]), (11, vec![0, 0, 0, 64, mn]), (11, vec![1, 0, 0, 64, mn]), (11, vec![2, 0, 0, 64, mx]),
+        (11, vec![2, 0, 0, 64, mn]), (11, vec![3, 0, 0, 64, mn]), (11, vec![4, 0, 0, 64, mx]), (11, vec![4, 0, 0, 64, mn]),
+        (11, vec![6, 88, 0, 64, mx]), (11, vec![6, 0, 0, 64, mn]), (11, vec![7, 62, 0, 45, mx]), (11, vec![6, 0, 0, mn, 0]), (11, vec![7, 0, 0, 0, 5]),
+        (11, vec![6, 32, 0, 64, 100]), (20, vec![mn]), (21, vec![mn]), (28, vec![-32768]),
+        (41, vec![100 << 16, 400 << 16, 900 << 16, 250 << 16]), (41, vec![mn, mx, mx, mn]),
+        (42, vec![16384, -16384, -16384, 0, 0, 8192, 4096, 16384, 16384]),
+        (43, vec![66, 4, 2, 3, 65, 65535, 70, 65535, 0, 1, 4, 0, 10, 11, 12]),
+        (44, vec![0, 1, 2, 3, 255, 255, 255, 255, 9]),
+    ] {
+        c.emit(op, a);
+    }
+    for (g, sel, d) in [(0x4000i64, 79i64, mx), (0x4000, 68, mn), (0x2D41, 79, mx), (0x4000, 72, 100)] {
+        let spec = TtSpec { glyph_prog: sround_program(g, sel, d), pts: vec![(0, 0), (500, 0), (500, 700)], ..Default::default() };
+        let bytes = build_tt(&spec);
+        match catch_loc(move || draw_hinted(&bytes, 0, 1000.0, 0, false)) {
+            Err(t) => c.emit_res(12, vec![g, sel, d], Err(t)),
+            Ok(Ok(p)) => c.emit_res(12, vec![g, sel, d], Ok(vec![(p[0].0 as f64 * 64.0).round() as i64])),
+            Ok(Err(_)) => {}
+        }
+    }
     // fvar normalize
     let fx_vals: Vec<i64> = vec![0, 65536, -65536, 100 << 16, 400 << 16, 900 << 16, i32::MIN as i64, i32::MAX as i64, 1, -1, i32::MIN as i64 + 1, i32::MAX as i64 - 1, 32768, -32768];
     for _ in 0..nr * 2 {
@@ -2217,7 +2242,7 @@ fn main() {
     let shards = cw.finish();
     st.v.insert("shards".into(), shards.into());
     st.v.insert("model_cases".into(), cw.len().into());
-    st.write(&dir, "correspondence: every modelled kernel on a boundary-dense i32 grid (0, +-2^k+-d, MIN/MAX +-{16,31,32,63,64,272,..}) crossed pairwise/triple-wise plus random operands, SROUND/S45ROUND+ROUND through the real interpreter, synthetic fvar/avar/cmap4/Index1/hmtx/gvar tables; search: generated TrueType programs (systematic one-instruction programs for 96 opcodes x 4 program locations, then random prologue + 1..4 instructions with extreme operands) drawn hinted, and value-extreme byte/field mutations of 40 test fonts x 12 API groups; non-trivial = some operand of magnitude > 1");
+    st.write(&dir, "correspondence: every modelled kernel on a boundary-dense i32 grid (0, +-2^k+-d, MIN/MAX +-{16,31,32,63,64,272,..}) crossed pairwise/triple-wise plus random operands, SROUND/S45ROUND+ROUND through the real interpreter, synthetic fvar/avar/cmap4/Index1/hmtx/gvar tables; search: generated TrueType programs (systematic one-instruction programs for 96 opcodes x 4 program locations, then random prologue + 1..4 instructions with extreme operands) drawn hinted, and value-extreme byte/field mutations of 42 test fonts x 13 API groups (incl. klippa subsetting and IFT patch selection/application); non-trivial = some operand of magnitude > 1");
     println!("cases={} shards={} kernel_trap_sites={} c20_trap_sites={} oracle_failures={}", cw.len(), shards, kernel_traps.len(), sites.len(), st.oracle_failures.len());
     for s in &sites {
         println!("TRAP {}", s["key"].as_str().unwrap_or(""));
